@@ -21,7 +21,7 @@ TAGWHAT = {"C07": "acceptance", "C15": "diagnostics", "C14": "crash"}
 
 
 def models(quick):
-    return [("all28-3", ALL28, 3), ("recovery-5", RECOVERY, 5)] if quick else [("all28-3", ALL28, 3), ("recovery-5", RECOVERY, 5), ("binders-4", BINDERS, 4), ("operators-5", OPERATORS, 5)]
+    return [("all28-3", ALL28, 3), ("recovery-5", RECOVERY, 5)] if quick else [("all28-3", ALL28, 3), ("recovery-5", RECOVERY, 5), ("binders-4", BINDERS, 4), ("operators-4", OPERATORS, 4)]
 
 
 def sentences_file(n):
